@@ -331,6 +331,18 @@ CALLEE_TEMPLATE = [
         ['return', gen_prog.B('+', gen_prog.C('hh', gen_prog.V('xx')), gen_prog.C('cb', gen_prog.V('xx')))]]],
     ['func', 'twice', ['yy', 'unusedarg'], False, [['return', gen_prog.B('*', gen_prog.V('yy'), gen_prog.N(2))]]],
     ['expr', gen_prog.C('systemLog', gen_prog.B('+', gen_prog.S('callee '), gen_prog.C('applyfn', gen_prog.V('twice'), gen_prog.N(4))))],
+    # names read only on the RIGHT of an operator whose left operand holds a call; expression statements whose only call sits on the LEFT of
+    # a compound right operand (neither the names nor the statements are superfluous)
+    ['func', 'scale', ['values', 'factor'], False, [
+        ['assign', 'extra', gen_prog.N(3)],
+        ['assign', 'bonus', gen_prog.B('+', gen_prog.C('arrayLength', gen_prog.V('values')), gen_prog.V('extra'))],
+        ['return', gen_prog.B('+', gen_prog.B('*', gen_prog.C('arrayLength', gen_prog.V('values')), gen_prog.V('factor')), gen_prog.V('bonus'))]]],
+    ['assign', 'bumps', gen_prog.N(0)],
+    ['func', 'bump', ['by'], False, [['expr', gen_prog.C('systemGlobalSet', gen_prog.S('bumps'), gen_prog.B('+', gen_prog.V('bumps'), gen_prog.V('by')))], ['return', gen_prog.V('by')]]],
+    ['expr', gen_prog.B('+', gen_prog.C('bump', gen_prog.N(1)), gen_prog.B('*', gen_prog.N(2), gen_prog.N(3)))],
+    ['expr', gen_prog.B('*', gen_prog.C('bump', gen_prog.N(10)), gen_prog.U('-', gen_prog.B('-', gen_prog.V('bumps'), gen_prog.N(1))))],
+    ['expr', gen_prog.B('-', gen_prog.U('-', gen_prog.C('bump', gen_prog.N(100))), gen_prog.B('+', gen_prog.B('*', gen_prog.N(2), gen_prog.N(2)), gen_prog.N(1)))],
+    ['expr', gen_prog.C('systemLog', gen_prog.B('+', gen_prog.S('scaled '), gen_prog.B('+', gen_prog.C('scale', gen_prog.C('arrayNew', gen_prog.N(1), gen_prog.N(2)), gen_prog.N(5)), gen_prog.V('bumps'))))],
 ]
 
 
